@@ -112,6 +112,8 @@ def run(rep, info, model, tier, seed):
                 variants.append([stream[:p_], stream[p_:]])
         for _ in range(6):
             variants.append(scen.chunkings(rnd, stream, rnd.choice(["random", "small"])))
+        # no read is larger than the 64 KiB receive buffer
+        variants = [[c[j:j + 65536] for c in v for j in range(0, len(c), 65536)] for v in variants]
         groups.append(("deflate", [dict(z, steps=scen.steps_from_chunks([c for c in v if c])) for v in variants]))
         rep.count("stream_kind", "deflate")
     # exhaustive cut sets of short frame sequences
